@@ -38,7 +38,7 @@ def gen_scenarios(rng):
     scs = []
     n = rng.randint(2, 3)
     for i in range(n):
-        fl = 'nr' if i == 0 and rng.random() < 0.7 else rng.choice(['r', 'r', 'c99'])
+        fl = 'nr' if rng.random() < (0.7 if i == 0 else 0.35) else rng.choice(['r', 'r', 'c99'])
         sc = scenario.gen_scenario(rng, want={'flavor': fl})
         sc.name = 's%d' % i
         sc.prefix = 'px%d_' % i
